@@ -203,7 +203,7 @@ def make_judges(ctx):
 def floors(tier):
     cells = [('mode-route', r, o, rt) for r in G.ROUNDINGS for o in G.OVERFLOWS for rt in ('constructor', 'call', 'set_val', 'setitem')]
     cells += [('family', f) for f in ('pyint', 'pyfloat', 'str', 'npf', 'npi', 'npu', 'arrf', 'arri', 'arru', 'list', 'tuple', 'pycomplex')]
-    cells += [('noncontiguous_carrier', c) for c in ('1d', '2d', 'bigfloat2d')]
+    cells += [('noncontiguous_carrier', c) for c in ('1d', '2d', 'bigfloat2d')] + [('object_array_mixed',)]
     if np.finfo(np.longdouble).nmant > 52:
         cells += [('extended_precision_containers',)]
     return cells
@@ -316,6 +316,23 @@ def run_case(case, ctx):
                     # the same array in another memory layout (Fortran order, negative stride, strided view)
                     _store_all_routes(Fxp, G.noncontig(car, rng), G.container_shape(cont, len(ok)), s, w, nf, r, o, routes=('constructor', 'set_val', 'setitem'))
                     ctx.floor_hit(('noncontiguous_carrier', cont))
+        # object arrays of python numbers (the library's own carrier for long integers), mixing integers and floats, an integer first
+        fl = [v for v in vals if G.can_carry(v, 'pyfloat')]
+        if fl and (i // 10) % 2 == 1:
+            lo_, hi_ = R.code_range(s, w)
+            iv = R.round_exact(F(rng.randint(lo_, hi_)) / F(2) ** nf, 'floor')
+            if abs(iv) < 2 ** 53 and abs(iv * F(2) ** nf) < 2 ** 62:
+                els = [int(iv)] + [float(v) for v in fl[:3]]
+                oa = np.empty(len(els), dtype=object)
+                oa[:] = els
+                _store_all_routes(Fxp, oa, (len(els),), s, w, nf, r, o)
+                ob = np.empty(4, dtype=object)
+                ob[:] = (els * 4)[:4]
+                _store_all_routes(Fxp, ob.reshape(2, 2), (2, 2), s, w, nf, r, o, routes=('constructor', 'set_val'))
+                of = np.empty(len(els), dtype=object)
+                of[:] = list(reversed(els))
+                _store_all_routes(Fxp, of, (len(els),), s, w, nf, r, o, routes=('constructor', 'call'))
+                ctx.floor_hit(('object_array_mixed',))
         # extended-precision inputs (where longdouble is wider than a double): values of up to 63 significant bits next to codes and ties, as scalars,
         # arrays, lists and tuples of longdouble numbers - the configured rounding has to see all of their bits
         L = np.longdouble
